@@ -28,6 +28,7 @@ Guard(e) ==
     [] e.a = "Stuck"      -> StuckG
     [] e.a = "EndBlocked" -> EndBlockedG(e.total)
     [] e.a = "PBlocked"   -> PBlockedG
+    [] e.a = "GPanic"     -> FALSE
     [] OTHER -> FALSE
 
 Effect(e) ==
